@@ -26,7 +26,12 @@ fn gen_finish_c01(rng: &mut Rng) -> Finish {
         7..=9 => {
             let nparts = rng.range(1, 5);
             let body_len = *rng.pick(&[0usize, 10, 1500, 5000]);
-            let parts = (0..nparts).map(|_| (rng.range(1, 900), rng.chance(1, 2))).collect();
+            let mut parts: Vec<(usize, bool)> = (0..nparts).map(|_| (rng.range(1, 900), rng.chance(1, 2))).collect();
+            if rng.chance(1, 4) {
+                // flush() before the first write: a part of no bytes, flushed (write_all of an empty
+                // slice makes no write call); the flush has to wait for the writer's turn like a write
+                parts.insert(0, (0, true));
+            }
             Finish::Writer { status: 200, body_len, parts, early_drop_sleep_us: if rng.chance(1, 3) { rng.range(0, 1500) as u64 } else { 0 }, vectored: rng.chance(1, 3) }
         }
         10 => Finish::Drop,
@@ -234,7 +239,13 @@ pub fn gen_c06(rng: &mut Rng, caseid: u64, unix: bool, bound_ms: u64) -> (ConvCa
                 4..=5 => Finish::Writer {
                     status: *rng.pick(&[200u16, 418]),
                     body_len: *rng.pick(&[0usize, 10, 3000]),
-                    parts: (0..rng.range(1, 4)).map(|_| (rng.range(1, 900), rng.chance(1, 2))).collect(),
+                    parts: {
+                        let mut parts: Vec<(usize, bool)> = (0..rng.range(1, 4)).map(|_| (rng.range(1, 900), rng.chance(1, 2))).collect();
+                        if rng.chance(1, 4) {
+                            parts.insert(0, (0, true));
+                        }
+                        parts
+                    },
                     early_drop_sleep_us: 0,
                     vectored: rng.chance(1, 3),
                 },
